@@ -421,6 +421,19 @@ def _mk(cls, params):
     return o
 
 
+def limiters_of_controller(params):
+    """the step-size limiters a real controller loads for Adaptivity with the given limits, in the order in which the controller calls them
+    (the dependencies of the real classes decide which limiter is loaded and with which control order)"""
+    from pySDC.implementations.convergence_controller_classes.adaptivity import Adaptivity
+    from pySDC.implementations.convergence_controller_classes.step_size_limiter import StepSizeLimiter, StepSizeSlopeLimiter
+
+    ctl = controller_nonMPI(1, {'logger_level': 50, 'dump_setup': False, 'mssdc_jac': False}, base_desc(extra_cc={Adaptivity: {'e_tol': 1.0, **params}}))
+    out = [ctl.convergence_controllers[i] for i in ctl.convergence_controller_order if isinstance(ctl.convergence_controllers[i], (StepSizeLimiter, StepSizeSlopeLimiter))]
+    for o in out:
+        o.log = lambda *a, **k: None
+    return out
+
+
 def lim_case(rep):
     from pySDC.implementations.convergence_controller_classes.step_size_limiter import StepSizeLimiter, StepSizeSlopeLimiter
 
@@ -433,9 +446,8 @@ def lim_case(rep):
             c.add(a)
         L = SimpleNamespace(status=SimpleNamespace(dt_new=SymReal(dtn)), params=SimpleNamespace(dt=SymReal(dt)))
         St = SimpleNamespace(levels=[L], status=SimpleNamespace(restart=SymBool(rsf), slot=0), time=0.0)
-        # control order 91 (slope) before 92 (absolute)
-        _mk(StepSizeSlopeLimiter, dict(dt_slope_min=SymReal(smin), dt_slope_max=SymReal(smax_), dt_rel_min_slope=SymReal(rel))).get_new_step_size(None, St)
-        _mk(StepSizeLimiter, dict(dt_min=SymReal(dmin), dt_max=SymReal(dmax))).get_new_step_size(None, St)
+        for lim in limiters_of_controller(dict(dt_slope_min=SymReal(smin), dt_slope_max=SymReal(smax_), dt_rel_min_slope=SymReal(rel), dt_min=SymReal(dmin), dt_max=SymReal(dmax))):
+            lim.get_new_step_size(None, St)
         return R(L.status.dt_new)
 
     paths = explore(fn)
@@ -454,8 +466,8 @@ def lim_case(rep):
             rflag = bool(model_value(m, rsf))
             L = SimpleNamespace(status=SimpleNamespace(dt_new=vals['dtn']), params=SimpleNamespace(dt=vals['dt']))
             St = SimpleNamespace(levels=[L], status=SimpleNamespace(restart=rflag, slot=0), time=0.0)
-            _mk(StepSizeSlopeLimiter, dict(dt_slope_min=vals['smin'], dt_slope_max=vals['smax'], dt_rel_min_slope=vals['rel'])).get_new_step_size(None, St)
-            _mk(StepSizeLimiter, dict(dt_min=vals['dmin'], dt_max=vals['dmax'])).get_new_step_size(None, St)
+            for lim in limiters_of_controller(dict(dt_slope_min=vals['smin'], dt_slope_max=vals['smax'], dt_rel_min_slope=vals['rel'], dt_min=vals['dmin'], dt_max=vals['dmax'])):
+                lim.get_new_step_size(None, St)
             rr = vals['dtn'] / vals['dt']
             sl = vals['dt'] * vals['smin'] if rr < vals['smin'] else vals['dt'] * vals['smax'] if rr > vals['smax'] else (vals['dt'] if abs(rr - 1) < vals['rel'] and not rflag else vals['dtn'])
             ex = min(max(sl, vals['dmin']), vals['dmax'])
@@ -1056,6 +1068,18 @@ def replay(path):
     elif t[0] == 'adapt_conv':
         bad = adapt_conv_concrete(t[1], d['order'], d['iter'], d['restart_at_maxiter'], d['vals'], d.get('decisions', ()))
         print('violated on the real class:', bad)
+    elif t[0] == 'lim':
+        v = d['vals']
+        L = SimpleNamespace(status=SimpleNamespace(dt_new=v['dtn']), params=SimpleNamespace(dt=v['dt']))
+        St = SimpleNamespace(levels=[L], status=SimpleNamespace(restart=d['restart'], slot=0), time=0.0)
+        for lim in limiters_of_controller(dict(dt_slope_min=v['smin'], dt_slope_max=v['smax'], dt_rel_min_slope=v['rel'], dt_min=v['dmin'], dt_max=v['dmax'])):
+            print('calling', type(lim).__name__, 'control order', lim.params.control_order)
+            lim.get_new_step_size(None, St)
+        rr = v['dtn'] / v['dt']
+        sl = v['dt'] * v['smin'] if rr < v['smin'] else v['dt'] * v['smax'] if rr > v['smax'] else (v['dt'] if abs(rr - 1) < v['rel'] and not d['restart'] else v['dtn'])
+        ex = min(max(sl, v['dmin']), v['dmax'])
+        print('limiters give', L.status.dt_new, 'specified clip (slope limits, then absolute limits)', ex)
+        bad = abs(L.status.dt_new - ex) > 1e-9 * (1 + abs(ex))
     elif t[0] == 'adapt_avoid':
         bad = avoid_concrete(d['NL'], d['order'], d['iter'], d['vals'])
         print('violated on the real class:', bad)
